@@ -164,6 +164,14 @@ func c13Exec(c *Case, generate bool) (*Violation, *execStats) {
 	pp.MaxList = 2
 	vg := gen.New(&rv, pp)
 	st.logf("pkg %s tree %s", c.Pkg, gen.Describe(s.model()))
+	if c.Seed%3 == 0 {
+		// equal-valued scalar leaves share one pointer (content unchanged): a writer must
+		// store a new pointer, never write through the old one
+		ra := simrt.NewRng(simrt.Mix(c.Seed, 6))
+		if model.AliasLeafPointers(s.root, func() bool { return ra.Intn(2) == 0 }) > 0 {
+			st.Probes["tree_with_shared_leaf_pointers"]++
+		}
+	}
 	schema := &ytypes.Schema{Root: s.root, SchemaTree: s.p.Schema().SchemaTree, Unmarshal: s.p.Unmarshal}
 	nops := c.NOps
 	if !generate {
@@ -237,6 +245,9 @@ func c13Draw(r *simrt.Rng, vg *gen.G, s *treeState, faults bool) (Op, bool) {
 	var dels []string
 	type upd = c13upd
 	var reps, upds []upd
+	// struct targets of the updates drawn so far (index into upds -> target), so that one of
+	// them can be written a second time with another payload
+	structTargets := map[int]*leafTarget{}
 	ndel, nrep, nupd := r.Intn(3), r.Intn(3), r.Intn(4)
 	if ndel+nrep+nupd == 0 {
 		nupd = 1
@@ -250,6 +261,7 @@ func c13Draw(r *simrt.Rng, vg *gen.G, s *treeState, faults bool) (Op, bool) {
 		dels = append(dels, path)
 		effs = append(effs, effect{Kind: "delete", Del: path, Target: kind})
 	}
+	var lastStructTarget *leafTarget
 	mk := func(kind string) (upd, effect, bool) {
 		structTarget := r.Intn(2) == 0
 		var lt *leafTarget
@@ -289,8 +301,10 @@ func c13Draw(r *simrt.Rng, vg *gen.G, s *treeState, faults bool) (Op, bool) {
 					e.Target = "ordered-list-entry"
 				}
 			}
+			lastStructTarget = lt
 			return upd{path, model.JSONTV(b)}, e, true
 		}
+		lastStructTarget = nil
 		parent := reflect.New(lt.Parent)
 		val, ok := vg.LeafValue(parent, lt.Field.Type, lt.Sch)
 		if !ok {
@@ -322,6 +336,36 @@ func c13Draw(r *simrt.Rng, vg *gen.G, s *treeState, faults bool) (Op, bool) {
 	for i := 0; i < nupd; i++ {
 		if u, e, ok := mk("update"); ok {
 			upds = append(upds, u)
+			effs = append(effs, e)
+			if lastStructTarget != nil {
+				structTargets[len(upds)-1] = lastStructTarget
+			}
+		}
+	}
+	// the same container / list entry may be updated twice in one message with different
+	// JSON payloads: an update merges, so what only the first payload sets must survive the second
+	if len(structTargets) > 0 && r.Intn(3) == 0 {
+		idxs := make([]int, 0, len(structTargets))
+		for i := range structTargets {
+			idxs = append(idxs, i)
+		}
+		sort.Ints(idxs)
+		i := idxs[r.Intn(len(idxs))]
+		lt := structTargets[i]
+		path := upds[i].path
+		payload, leaves, order := payloadFor(vg, lt, path, true)
+		if b, err := json.Marshal(model.TreeJSON(payload)); err == nil {
+			nu := len(effs) - len(upds)
+			e := effect{Kind: "update", Put: map[string]string{}, PutOrder: map[string][]string{}, Target: effs[nu+i].Target}
+			mergeInto(e.Put, lt.KeyLeaves)
+			mergeInto(e.Put, leaves)
+			for _, o := range lt.OrderedOn {
+				e.PutOrder[o[0]] = append(e.PutOrder[o[0]], o[1])
+			}
+			for lp, ks := range order {
+				e.PutOrder[lp] = append(e.PutOrder[lp], ks...)
+			}
+			upds = append(upds, upd{path, model.JSONTV(b)})
 			effs = append(effs, e)
 		}
 	}
@@ -400,6 +444,30 @@ func c13Draw(r *simrt.Rng, vg *gen.G, s *treeState, faults bool) (Op, bool) {
 	}
 	for _, u := range upds {
 		req.Update = append(req.Update, &gpb.Update{Path: strip(u.path), Val: u.tv})
+	}
+	if faults && op.A["bad"] == "" && r.Intn(8) == 0 {
+		// prefix and one path name different targets (or origins): the request addresses two
+		// different devices (or schemas) at once and cannot be applied. The prefix may be one
+		// without elements - it is a prefix all the same.
+		var first *gpb.Path
+		switch {
+		case len(req.Delete) > 0:
+			first = req.Delete[0]
+		case len(req.Replace) > 0:
+			first = req.Replace[0].Path
+		default:
+			first = req.Update[0].Path
+		}
+		if req.Prefix == nil {
+			req.Prefix = &gpb.Path{}
+		}
+		if r.Intn(2) == 0 {
+			req.Prefix.Target, first.Target = "dut1", "dut2"
+		} else {
+			req.Prefix.Origin, first.Origin = "openconfig", "vendor-x"
+		}
+		op.A["bad"] = "1"
+		op.A["badkind"] = "prefix-mismatch"
 	}
 	b, err := protojson.Marshal(req)
 	if err != nil {
